@@ -57,6 +57,9 @@ class C04(Check):
         yield dict(base, schema={"type": "record", "name": "R", "fields": [{"name": "a", "type": "long"}]}, records=[{"a": i} for i in range(300)], sync_interval=2, stream="seq-in")
         yield dict(base, schema="string", records=["abc", "defg"], sync_interval=4, codec="xz")  # first record exactly fills the interval
         yield dict(base, schema=["null", "int"], records=[], codec="bzip2")
+        for codec in ("null", "deflate", "bzip2", "xz"):
+            for level in (0, 1, 9, -1 if codec == "deflate" else 5):
+                yield dict(base, schema="string", records=["abc" * 50, "d", ""], sync_interval=100, codec=codec, codec2=codec, level=level)
         # long-distance repetition inside one deflate block (back-references beyond 16 KiB)
         big = hashlib.shake_256(b"verif").digest(20000)
         yield dict(base, schema="bytes", records=[big, big, big], sync_interval=10**6, codec="deflate", codec2="deflate")
@@ -66,7 +69,8 @@ class C04(Check):
         kw = {"codec": codec, "sync_interval": interval, "metadata": metadata}
         if case.get("marker") is not None:
             kw["sync_marker"] = case["marker"]
-        if case.get("level") is not None and codec == "deflate":
+        if case.get("level") is not None:
+            # a level is accepted with every codec (codecs that cannot use a given value are expected to ignore it)
             kw["codec_compression_level"] = case["level"]
         recs = case["records"]
         if stream == "wo-out":
